@@ -53,7 +53,7 @@ def run(ctx: vlib.Ctx):
     ctx.coverage["rule"] = ("schemas from the shared grammar generator (harness/gen.py; depth<=4, nested/recursive dataclasses, named tuples, "
                             "typed dicts, all leaf kinds, enums, collections, Optional, wire-disjoint unions, literals) x edge-biased conforming values; "
                             "distinct = (type tree, value) pairs; non-trivial = value contains at least one non-identity conversion or container")
-    ctx.theorems("props/C02_pack.vo", ["C02_pack_ref", "C02_field_packer"])
+    ctx.theorems("props/C02_pack.vo", ["C02_pack_ref", "C02_field_packer", "C02_basic"])
     ctx.trusted += ["TyModel.v (cp/pk: hand-written model of pack.py registry order, copy-vs-comprehension and could_be_none decisions) "
                     "tied by vm_compute correspondence; stdlib renderings (isoformat, str, total_seconds, encodebytes, Enum.value) are oracle tables"]
     ctx.assumptions += ["format dialect part (orjson/msgpack/TOML native types, TOML null dropping) and NamedTuple/TypedDict/ChainMap/Counter/unions/literals "
